@@ -232,6 +232,8 @@ def _worker_init(fn, initfn):
 def _worker_call(item):
     try:
         return ("ok", _WORKER_FN(item))
+    except Nondeterminism as ex:
+        return ("nondet", "%s\n%s" % (ex, traceback.format_exc()))
     except BrokenCheck as ex:
         return ("broken", "%s\n%s" % (ex, traceback.format_exc()))
     except Watchdog as ex:
@@ -264,6 +266,8 @@ def pmap(fn, items, procs=None, initfn=None, chunksize=1, ordered=True):
                 if tag != "ok":
                     for p_ in list(getattr(pool, "_processes", {}).values()):
                         p_.terminate()
+                    if tag == "nondet":
+                        raise Nondeterminism("worker failed: " + val)
                     raise BrokenCheck("worker failed: " + val)
                 out.append(val)
         except cf.process.BrokenProcessPool as ex:
@@ -476,6 +480,33 @@ def main(check_fn):
     """Run check_fn() -> exit code; map harness failures to exit 2."""
     try:
         rc = check_fn()
+    except Nondeterminism as ex:
+        # The same choice prefix did not reproduce the same execution.  The harness owns every source of
+        # nondeterminism it knows of, so either the machine stalled (flake) or the code under test keeps state
+        # across independent executions (e.g. a mutable default shared by all instances).  Decide by running
+        # the whole check once more in a fresh process: silent there -> flake; diverging again -> violation.
+        modname = getattr(getattr(sys.modules.get("__main__"), "__spec__", None), "name", None) or ""
+        pid = "C" + modname.rsplit(".c", 1)[-1] if ".c" in modname else None
+        print("NONDETERMINISM: %s" % str(ex).splitlines()[0])
+        if pid and not os.environ.get("VERIF_NONDET_RETRY"):
+            import subprocess
+            sys.stdout.flush()
+            rc = subprocess.call([sys.executable, "-m", modname] + sys.argv[1:], env=dict(os.environ, VERIF_NONDET_RETRY="1"))
+        elif pid:
+            base = "/verif/replays" if REPO == "/repo" else "/verif/scratch/replays"
+            os.makedirs(os.path.join(base, pid), exist_ok=True)
+            path = os.path.join(base, pid, "nondeterministic-replay.json")
+            with open(path, "w") as f:
+                json.dump(dict(property=pid, group="nondeterministic-replay",
+                               what="replaying a recorded choice prefix did not reproduce the execution, twice, in fresh processes: "
+                                    "the code under test keeps state across independent executions of the harness",
+                               detail=str(ex)[:4000]), f, indent=1)
+            print("VIOLATION property=%s replay=%s" % (pid, path))
+            print("  what: replay of a recorded schedule diverged in two fresh processes (state kept across executions)")
+            rc = 1
+        else:
+            traceback.print_exc()
+            rc = 2
     except BrokenCheck as ex:
         print("BROKEN-CHECK: %s" % ex)
         traceback.print_exc()
